@@ -33,6 +33,7 @@ EXPECTED_PROBES = ["read_at_end", "read_zero_at_end", "read_spans_2plus_boundari
                    "depth_ge_3", "mdf_layer", "file_layer", "reseek_needed"]
 SHRINK = {"max_attempts": 600, "max_seconds": 40.0}
 
+RUN_CPU_CAP_S = 10           # a C08 run takes milliseconds; a view whose read never returns is cut off here (class no_result)
 TINY_ALPHABET = [("seek", 0, 0), ("seek", 1, 1), ("seek", -1, 2), ("seek", 99, 0), ("seek", -1, 1),
                  ("tell",), ("read", 0), ("read", 1), ("read", 3), ("read", 99)]
 TINY_STACKS = [
